@@ -1598,12 +1598,15 @@ val sql_set_max : sqlh -> nat -> sqlh
 
 val sql_reopen : sqlh -> sqlh
 
+val sql_reopen_cfg : sqlh -> bool -> bool -> sqlh
+
 type sop =
 | SAdd of str
 | SGet of nat * sdir
 | SLen
 | SSetMax of nat
 | SReopen
+| SReopenCfg of bool * bool
 
 type sout =
 | SoBool of bool
